@@ -128,8 +128,10 @@ class Explorer:
         cons += enc.assumptions()
         cons += enc.side_conditions()
         t0 = time.time()
+        # no retry here: an undecided branch is explored on both sides anyway, and a guard the solver cannot decide must cost a
+        # bounded amount of time per array element
         v, _ = Z.check(cons, name=self.name + ":branch", timeout_ms=self.decision_timeout_ms, enc=enc,
-                       want_model=False)
+                       want_model=False, retry=False)
         self.solver_calls += 1
         self.solver_seconds += time.time() - t0
         self.cache[key] = v
